@@ -218,4 +218,39 @@ def run(ctx):
                 run.instance(R4, {"fn": pp.short(fid), "site": t["sp"].split(":")[1], "callee": t["f"].split("::")[-1]}, held=held)
                 if not held:
                     run.finding(Finding(R4, fid, "failed key-index bump is swallowed", site=c.site_of(f, b), detail=detail))
+    R5 = "C15.R5"
+    run.rule(R5, "a new account gets a parent path beyond every existing one (highest first component + 1) and a fresh label", floor=3)
+    KEYS_M = c.LW + "internal::keys::"
+    na = ctx.fn(KEYS_M + "new_acct_path")
+    if na:
+        mx = cfg.find_calls(na, "core::iter::traits::iterator::Iterator::max_by")
+        adds = []
+        for b, bb in enumerate(na.bbs):
+            for st in bb["s"]:
+                if st["k"] == "a" and st["r"]["k"] == "bin" and st["r"]["op"].startswith("Add"):
+                    pl = vf.producers(na, st["r"]["l"]) | vf.origins(na, st["r"]["l"])
+                    if vf.has_call(pl, "core::iter::traits::iterator::Iterator::max_by") or vf.has_field(pl, "grin_keychain::types::ExtKeychainPath", "path"):
+                        adds.append((b, vf.const_of_operand(na, st["r"]["r"])))
+        held = len(mx) == 1 and len(adds) == 1 and adds[0][1] == "1"
+        run.instance(R5, {"fn": "keys::new_acct_path", "obligation": "new first path component = highest existing + 1", "additions": adds}, held=held)
+        if not held:
+            run.finding(Finding(R5, na.id, "a new account's parent path is not (highest existing first component) + 1", site=na.loc(), detail=str(adds)))
+        # the highest entry is taken over the accounts the wallet knows, comparing the first path component
+        h = False
+        if mx:
+            h = vf.has_call(vf.producers(na, mx[0][1]["a"][0]), c.WB + "acct_path_iter")
+        run.instance(R5, {"fn": "keys::new_acct_path", "obligation": "the maximum is taken over acct_path_iter()"}, held=h)
+        if not h:
+            run.finding(Finding(R5, na.id, "the highest existing account path is not taken over all stored accounts", site=na.loc()))
+        # duplicate labels refused before anything is saved
+        anyc = [(b, t) for b, t in na.calls() if (t.get("f") or "").endswith("Iterator::any")]
+        sv = {b for b, _t in cfg.find_calls(na, c.WOB + "save_acct_path")}
+        h = False
+        for b, _t in anyc:
+            g_ = cfg.call_guard(na, b)
+            if g_.fail and sv and cfg.must_pass(na, g_.fail, sv)[0]:
+                h = True
+        run.instance(R5, {"fn": "keys::new_acct_path", "obligation": "an existing label is refused before save_acct_path"}, held=h)
+        if not h:
+            run.finding(Finding(R5, na.id, "save_acct_path is reachable for a label that already exists (the mapping of the existing account would be overwritten)", site=na.loc()))
     run.not_decided += ["uniqueness over all histories/restarts as such (R1-R3 are the conditions under which the counter discipline implies it)", "LMDB durability of the committed index"]
